@@ -21,7 +21,8 @@ class TheCheck(Check):
     prop = "C17"
     # parser half: theorems live in Props/C17Parsers.lean (imported by Props/C17.lean)
     also_audit = tuple("Qlibc.Props.C17Parsers." + n for n in (
-        "ini_markers", "aconf_tokenize_safe", "aconf_parse_total", "iniExpand_terminates", "iniParse_total"))
+        "ini_markers", "aconf_tokenize_safe", "aconf_parse_total", "iniExpand_terminates", "iniParse_total",
+        "ini_include_consts", "iniParseFile_total"))
     module = "encode"
     harness = "encode"
     rule = ("arbitrary NUL-terminated inputs in exactly sized heap buffers (ASan+UBSan) fed to the in-place decoders, "
@@ -94,7 +95,7 @@ class TheCheck(Check):
 
     def judge(self, op, line):
         w, f = op.split(), line.split()
-        if w[0] in ("ini", "ac"):
+        if w[0] in ("ini", "inif", "ac"):
             return c17_parsers.parser_judge(op, line) if c17_parsers is not None else None
         if line.startswith("fault"):
             return "%s on input %s" % (line, op)
@@ -107,6 +108,6 @@ class TheCheck(Check):
         return None
 
     def classify(self, op, detail):
-        if c17_parsers is not None and op.split()[0] in ("ini", "ac"):
+        if c17_parsers is not None and op.split()[0] in ("ini", "inif", "ac"):
             return c17_parsers.parser_classify(op, detail)
         return "qencode:" + op.split()[0]
